@@ -95,6 +95,10 @@ def run(tier, seed):
                     if sig:
                         detail = dict(detail or {}, which=which, common_path=dec.get('common_path'), strategy=t['strategy'])
                         chk.violation(sig + ':decision-' + which, {'base': t['base'], 'local': t['local'], 'remote': t['remote'], 'strategy': t['strategy']}, detail)
+    diff_errors = sum(1 for t, res in zip(tasks, results) if t['op'] in ('diff', 'nbdiff_patch') and 'err' in res)
+    if diff_errors * 5 > len(gpairs) + len(npairs) or merge_errors * 2 > 2 * len(triples):
+        chk.broken_obligation('harness:too-many-failing-calls', {'diff_errors': diff_errors, 'merge_errors': merge_errors})
+    chk.cov['diff_errors_skipped'] = diff_errors
     # the Coq well-formedness checker (wf_diff, extracted) must agree with the Python oracle on every diff
     t1 = 0
     if getattr(b, 'model_ok', False) and checker_lines:
